@@ -435,6 +435,8 @@ def write_evidence(mod, tier, seed, total, sigs, shapes, scheds, samples, wall, 
         "simulated_runs": total["runs"],
         "simulated_runs_per_hour": int(total["runs"] / hours),
         "cases_per_hour": int(ev / hours),
+        "seeds_per_hour": int(ev / hours),
+        "seed_derivation": "case_seed = blake2(('case', VERIF_SEED, worker, index)); one case seed = one exactly repeatable execution",
         "simulated_time_s": round(total["sim_time"], 3),
         "loop_steps": total["steps"],
         "distinct_program_shapes": len(shapes),
